@@ -26,6 +26,9 @@ type SigField struct {
 type SigSide struct {
 	Form   string     `json:"form"` // pos | struct | ptr | pptr (invalid) | mixed (invalid)
 	Fields []SigField `json:"fields"`
+	// Depth: pointer depth of the "pptr" form (0 = 2): every depth above one
+	// is a multiply indirected struct and must be rejected.
+	Depth int `json:"depth,omitempty"`
 }
 
 type C14Case struct {
@@ -126,7 +129,15 @@ func (s SigSide) goTypes() []reflect.Type {
 	case "ptr":
 		return []reflect.Type{reflect.PtrTo(s.structType())}
 	case "pptr":
-		return []reflect.Type{reflect.PtrTo(reflect.PtrTo(s.structType()))}
+		d := s.Depth
+		if d < 2 {
+			d = 2
+		}
+		t := s.structType()
+		for i := 0; i < d; i++ {
+			t = reflect.PtrTo(t)
+		}
+		return []reflect.Type{t}
 	case "mixed":
 		ts := []reflect.Type{s.structType()}
 		if len(s.Fields) > 0 && s.Fields[0].Type%2 == 0 {
@@ -473,6 +484,9 @@ func genC14(g engine.G) *engine.Case {
 				}
 			}
 			side.Form = engine.Pick(g, []string{"pptr", "mixed"})
+		if side.Form == "pptr" {
+			side.Depth = engine.Pick(g, []int{2, 2, 3, 4, 255, 256, 257, 258, 512, 513})
+		}
 		}
 	}
 	c := &engine.Case{}
